@@ -1,15 +1,45 @@
-"""Assumed contract of struct.pack / struct.unpack.
+"""Assumed contract of struct.pack / struct.unpack for the float codes.
 
-Concrete arguments are passed through to the real struct module.  A symbolic float (SFloat)
-is known only through uninterpreted functions: pack(fmt, v) is the byte string
-fbits[fmt](v, k) and unpack(fmt, b) the float funpack[fmt](bits of b); the two are assumed
-mutually inverse (NaN payloads excepted, as the property says) -- see props/C02.
+Concrete arguments are passed through to the real struct module.  A symbolic float (extern.SFloat) is known only through
+uninterpreted functions:  ieee_w(v, k) is bit k (big-endian byte order, MSB first) of the w-bit IEEE encoding of v;
+overflows_w(v) says whether struct raises OverflowError for v at width w (never for w = 64);  unpack_w(arr) is the float a
+w-bit pattern denotes.  Assumed: little-endian packing is the byte reversal of big-endian packing; pack and unpack are
+mutually inverse except for NaN payloads (used by the round-trip lemmas of C02).  What the prover checks with this is the
+plumbing the property is about: which width and byte order a route selects, the length rules, the overflow-to-infinity rule.
 """
 import struct as _struct
 import z3
 from . import sym
-from .sym import Unsupported, NeedConcrete, is_sym
-from .extern import BBytes, SymBytes, SFloat, bytes_to_ba
+from .sym import Unsupported, NeedConcrete, is_sym, SInt
+from .extern import BBytes, SymBytes, SFloat, BA, _FLT
+
+WIDTH = {'e': 16, 'f': 32, 'd': 64}
+_ieee = {w: z3.Function(f'ieee_{w}', _FLT, z3.IntSort(), z3.BoolSort()) for w in (16, 32, 64)}
+_ovf = {w: z3.Function(f'overflows_{w}', _FLT, z3.BoolSort()) for w in (16, 32)}
+_A = z3.ArraySort(z3.IntSort(), z3.BoolSort())
+_unpack = {w: z3.Function(f'unpack_{w}', _A, _FLT) for w in (16, 32, 64)}
+
+
+def ieee_view(v, w):
+    """big-endian IEEE bits of the symbolic float v at width w"""
+    f = _ieee[w]
+    t = v.term
+    return BA(w, lambda k: sym.mk_bool(f(t, sym._int_t(k))))
+
+
+def overflows(v, w):
+    if w == 64:
+        return False
+    return sym.mk_bool(_ovf[w](v.term))
+
+
+def byterev_view(V):
+    a, n = V.bit, V.n
+
+    def b(i):
+        q, r = sym.floordiv_mod(i, 8)
+        return a(n - 8 - 8 * q + r)
+    return BA(n, b)
 
 
 def struct_pack(interp, fmt, *vals):
@@ -22,15 +52,32 @@ def struct_pack(interp, fmt, *vals):
             interp.throw('struct.error', str(ex))
         except Exception as ex:
             interp.host_exc(ex)
-    raise Unsupported("struct.pack of a symbolic value")
+    if len(vals) == 1 and isinstance(vals[0], SFloat) and isinstance(fmt, str) and len(fmt) == 2 and fmt[0] in '<>' and fmt[1] in WIDTH:
+        v, w = vals[0], WIDTH[fmt[1]]
+        if sym.truth(overflows(v, w)):
+            interp.throw('OverflowError', 'float too large to pack')
+        V = ieee_view(v, w)
+        if fmt[0] == '<':
+            V = byterev_view(V)
+        return BBytes(w // 8, V.bit)
+    raise Unsupported("struct.pack of a symbolic value with this format")
 
 
 def struct_unpack(interp, fmt, data):
     if isinstance(data, (BBytes, SymBytes)):
+        bb = data if isinstance(data, BBytes) else data.as_bbytes()
         try:
-            data = data.to_host() if isinstance(data, BBytes) else data.as_bbytes().to_host()
+            data = bb.to_host()
         except NeedConcrete:
-            raise Unsupported("struct.unpack of symbolic bytes")
+            if isinstance(fmt, str) and len(fmt) == 2 and fmt[0] in '<>' and fmt[1] in WIDTH:
+                w = WIDTH[fmt[1]]
+                if sym.truth(sym.lnot(sym.eq(bb.nbytes * 8, w))):
+                    interp.throw('struct.error', 'unpack requires a buffer of the right size')
+                V = BA(w, bb.bit)
+                if fmt[0] == '<':
+                    V = byterev_view(V)
+                return (SFloat(_unpack[w](V.as_array())),)
+            raise Unsupported("struct.unpack of symbolic bytes with this format")
     try:
         return _struct.unpack(fmt, data)
     except _struct.error as ex:
